@@ -66,6 +66,9 @@ def main():
                                     "caught": rc == 1 and bool(viol), "with_failing_input": any(not nf for _, nf in viol)}
         finally:
             sh("git checkout -q -- .", cwd=a.repo)
+            # a check run against a seeded change rewrites evidence/<id>.json and the regenerated Lean files from the
+            # MUTATED tree; neither may survive (evidence is only ever committed from runs against /repo itself)
+            sh("git checkout -q -- evidence lean/QuicModel/Generated", cwd=HERE)
         res["caught"] = any(c["caught"] for c in res["checks"].values())
         results[sid] = res
         print(sid, "CAUGHT" if res["caught"] else "MISSED", {p: c["violations"][:2] for p, c in res["checks"].items()}, flush=True)
